@@ -187,4 +187,31 @@ def verdict (ops : List Op) (segs : List (Seg × List Bool)) : String :=
   | none => "ok"
   | some c => c
 
+/-! ### the signal path (stream c16.signal: real signals to a child process) -/
+
+def isCb : Event → Bool
+  | .cb _ _ _ => true
+  | _ => false
+
+def isStop : Event → Bool
+  | .stop _ _ => true
+  | _ => false
+
+/-- what the process may do between the deciding signal and its exit, `live` being the instances alive (no shutdown signal
+was handled before): SIGTERM — every live instance's OnShutdown then OnFinalShutdown callbacks exactly once, then `Stop` of
+every graceful server exactly once, nothing else; SIGINT — the callbacks only; SIGQUIT — nothing; and it must exit. -/
+def signalPathLaw (live : List Inst) (sigs : List Sig) (E : List Event) (exited : Bool) : Option String :=
+  match deciding sigs with
+  | none => if E.isEmpty && !exited then none else some "signal-ignored-signal-acted"
+  | some .hup => none
+  | some .quit => if !exited then some "no-exit" else if E.isEmpty then none else some "quit-ran-callbacks"
+  | some .int =>
+    if !exited then some "no-exit"
+    else if signalOk live false E then none else some "shutdown-once"
+  | some .term =>
+    if !exited then some "no-exit"
+    else if !(signalOk live false (E.takeWhile isCb)) then some "shutdown-once"
+    else if !((E.dropWhile isCb).all isStop && stopAllOk live (E.dropWhile isCb)) then some "stop-shape"
+    else none
+
 end Casket.LifecycleSpec
